@@ -294,6 +294,8 @@ type KnownFinding struct {
 	// Deviation names a guarded deviation branch of the specification that reproduces this finding;
 	// checks re-run the model with it to recognise the finding exactly.
 	Deviation string `json:"deviation,omitempty"`
+	// Also lists further properties whose checks reach the same defect through the same record shape.
+	Also []string `json:"also,omitempty"`
 }
 
 func LoadKnown(property string) ([]KnownFinding, error) {
@@ -321,6 +323,12 @@ func LoadKnown(property string) ([]KnownFinding, error) {
 			}
 			if k.Property == property {
 				out = append(out, k)
+			} else {
+				for _, a := range k.Also {
+					if a == property {
+						out = append(out, k)
+					}
+				}
 			}
 		}
 	}
